@@ -16,6 +16,11 @@ def bounded_generated(tier, seed):
     return pb.bounded_generated(PID, tier, seed)
 
 
+def bounded_corner_trees(tier, seed):
+    from bounded import parser_bounded as pb
+    return pb.bounded_rfc_corner_trees(PID, tier, seed)
+
+
 def plan(tier):
     pl = Plan()
     pl.level = "other"
@@ -35,7 +40,7 @@ def plan(tier):
         return label.startswith(("record.", "optpos.", "addchild.")) or label in ("reject.frame", "inv")
 
     pl.label_filter = lf
-    pl.bounded = [bounded_tokens, bounded_generated]
+    pl.bounded = [bounded_tokens, bounded_generated, bounded_corner_trees]
     pl.functions = common.ARG_FUNCTIONS + [("sievelib.commands", "Command.addchild"),
                                            ("sievelib.commands", "HasflagCommand.reassign_arguments")] + common.PUSHDOWN_FUNCTIONS
     pl.trusted = [common.TRUSTED_LOWER, "independent reference tree builder bounded/sieve_ref.py (oracle of the bounded part)"]
